@@ -110,6 +110,21 @@ func ruleC18R1(c *Ctx) {
 			if gp := c.goParent(fn); gp != nil && !exactC18[name] {
 				name = anchorName(gp) + "$1" // a named goroutine body stands where the launcher's literal stood
 			}
+			if fn.Parent() != nil && !exactC18[name] {
+				// a literal inside a private helper of X stands where X's literal stood (X$N)
+				root := fn
+				for root.Parent() != nil {
+					root = root.Parent()
+				}
+				if owners := ownerNames(root); len(owners) > 1 {
+					for _, o := range owners[1:] {
+						if exactC18[o+"$1"] || hasNormKeyC18(o) {
+							name = o + "$1"
+							break
+						}
+					}
+				}
+			}
 			construct := b.Kind + ": " + b.Desc
 			ok, why := c18Bounded(c, fn, b, closedFields, signalledFields)
 			if ok {
@@ -458,6 +473,16 @@ func ruleC18R2(c *Ctx) {
 					}
 				}
 			}
+			// a deferred named method of the worker that stores nil
+			if g := d.Common().StaticCallee(); g != nil && c.P.inUni[g] {
+				for _, s := range callsIn(g) {
+					if sc := s.Common().StaticCallee(); sc != nil && fnBaseName(sc) == "Store" && len(s.Common().Args) > 1 && fieldOf(s.Common().Args[0]) == "output/baseoutput.ClientWorker.activeSession" {
+						if k, ok := s.Common().Args[1].(*ssa.Const); ok && k.IsNil() {
+							okClr = true
+						}
+					}
+				}
+			}
 		}
 	}
 	c.check(okClr, "C18.R2", rs, "activeSession cleared when the session ends", rs.Pos(), "a deferred closure stores nil", "a finished session stays published as active")
@@ -590,7 +615,7 @@ func ruleC18R4(c *Ctx) {
 		// the closer is the goroutine that waits on the stop request (a literal or a named method; run also launches the
 		// connection handlers); failing that, the first literal, so that a closer that lost its wait is still examined
 		var literal *ssa.Function
-		for _, s := range callsIn(p) {
+		for _, s := range c.callsInR(p) {
 			if gi, ok := s.(*ssa.Go); ok {
 				t := c.P.goTarget(gi)
 				if t == nil || !c.P.inUni[t] {
@@ -632,8 +657,11 @@ func ruleC18R4(c *Ctx) {
 	}
 	// each connection launches its closer before it starts reading
 	for _, rc := range c.P.Fns(aRunConn) {
-		lc := c.callsTo(rc, anchorPred("input/tcplistener.(*tcpLineListener).launchConnectionCloser"))
-		rd := c.callsTo(rc, anchorPred("input/tcplistener.(*multiLineReader).Read"))
+		calleeIs := func(name string) func(ssa.CallInstruction) bool {
+			return func(s ssa.CallInstruction) bool { f := s.Common().StaticCallee(); return f != nil && isAnchor(f, name) }
+		}
+		lc := c.sitesWhereR(rc, calleeIs("input/tcplistener.(*tcpLineListener).launchConnectionCloser"))
+		rd := c.sitesWhereR(rc, calleeIs("input/tcplistener.(*multiLineReader).Read"))
 		c.checkOrder("C18.R4", rc, "launchConnectionCloser", callInstrSet(lc), "first read", callInstrSet(rd))
 	}
 	// accept loop: every accept error ends the loop; run signals the listener abort unless it was the stop request
@@ -725,4 +753,14 @@ func ruleC18R6(c *Ctx) {
 		}
 	}
 	c.floor("C18.R6", "Signal/close sites", n, 8)
+}
+
+// hasNormKeyC18: the reviewed table has an entry for a literal of the named function
+func hasNormKeyC18(parent string) bool {
+	for _, r := range c18Reviewed {
+		if strings.Contains(r.fn, "$") && normClosure(r.fn) == normClosure(parent+"$1") {
+			return true
+		}
+	}
+	return false
 }
